@@ -43,7 +43,7 @@ func (r *rec) hp(parts ...[]byte) []byte {
 	return d[:]
 }
 
-func (r *rec) H(x []byte) []byte       { return r.hp(x) }
+func (r *rec) H(x []byte) []byte        { return r.hp(x) }
 func (r *rec) leaf(x []byte) []byte     { return r.hp([]byte{0}, x) }
 func (r *rec) inner(a, b []byte) []byte { return r.hp([]byte{1}, a, b) }
 
@@ -220,7 +220,7 @@ func (t *tb) opt(b []byte) string {
 }
 
 // ---------- Coq term helpers ----------
-func zs(v int64) string { return fmt.Sprintf("(%d)%%Z", v) }
+func zs(v int64) string  { return fmt.Sprintf("(%d)%%Z", v) }
 func ns(v uint64) string { return fmt.Sprintf("%d", v) }
 
 type proofJ struct {
